@@ -1459,6 +1459,10 @@ def run(ck: Check) -> None:
         "theorems hold for every class-name generator; `name_is_classform` speaks of that function, the concrete default form is only tested",
         "multi-document input: files of one flat directory, references `other.json#/pointer`, `other.json`, `#/pointer`; Model/ResolverMultidoc starts from the "
         "reserved/loaded state observed at the first call of _resolve_unparsed_json_pointer (the per-document prelude is not modelled for document sets)",
+        "Dcg/Model/ResolverDedupe restates the name/key logic of Parser.__delete_duplicate_models; the key (render(class_name=duplicate_class_name), imports) is a parameter "
+        "whose value the harness takes from the real objects; the root-model branch of the pass (a root-type model that only wraps a reference to a model of its own name) is outside the model",
+        "base-path contexts: directories below the resolver's _base_path as segment lists, POSIX paths without symlinks; a path that leaves _base_path is answered `outside`, "
+        "a current directory outside _base_path (or None) ends the modelled region; `#…` references and URLs are outside this part of the model",
     ]
     ck.notes["distinct_nontrivial_rules"] = {
         "sequences": "distinct (options, operation prefix up to the first unmodelled op) whose final registry holds >= 2 entries",
@@ -1469,6 +1473,10 @@ def run(ck: Check) -> None:
         "modpass": "distinct cases in which the pass renamed at least one class",
         "worklist": "distinct documents whose parse reserved at least one pointer",
         "multidoc": "distinct document sets (file stems in listing order, edges, kind) on which the oracle passed; for the model correspondence: those in which _resolve_unparsed_json_pointer made at least one lookup",
+        "collide": "distinct documents (keys in order, content per key, container, kind) on which the oracle passed",
+        "dedupe-pass": "distinct model sequences in which the real pass dropped at least one model",
+        "dirs": "distinct directory trees (files, edges, entry, kind) on which the oracle passed",
+        "basepath": "distinct operation sequences in which one reference string got different answers in different directories",
         "e2e": "distinct documents (keys in order, edges, container, kind) on which the oracle passed; failures matching a known finding are counted in known_finding_hits_in_campaigns",
     }
     campaign_sequences(ck, 400 if quick else 3000)
